@@ -23,7 +23,9 @@
  * Oracle (ghost counters): when parsec_context_wait returns, every submitted
  * taskpool has executed all its tasks and reported completion; when
  * parsec_taskpool_wait(tp) returns, tp has; every completion callback runs
- * exactly once and only after the taskpool's last task; no task runs after the
+ * exactly once, only after the taskpool's last task, and has RETURNED before the
+ * taskpool is reported TERMINATED (observed from inside the callback: the state a
+ * concurrent waiter would read is still not TERMINATED); no task runs after the
  * wait returned; active_taskpools is back to 0 and the context can be started
  * again; the wait loop never spins without a runnable task (lost termination).
  */
@@ -89,10 +91,19 @@ static void submit_for(int who, int k)
 static void startup0(parsec_context_t *c, parsec_taskpool_t *tp, parsec_task_t **l){ (void)c; (void)tp; (void)l; pending[0] = nt[0]; }
 static void startup1(parsec_context_t *c, parsec_taskpool_t *tp, parsec_task_t **l){ (void)c; (void)tp; (void)l; pending[1] = nt[1]; }
 static void startup2(parsec_context_t *c, parsec_taskpool_t *tp, parsec_task_t **l){ (void)c; (void)tp; (void)l; pending[2] = nt[2]; }
+static int in_callback[3];         /* ghost: completion callback of tp k entered and not yet returned */
+static int cb_saw_terminated, cb_nested_self;
 static int complete_cb(int k)
 {
+    if(in_callback[k]) cb_nested_self = 1;
+    in_callback[k] = 1;
     cbn[k]++; cb_after_last[k] = (executed[k] == nt[k]);
+    /* the state a concurrent parsec_taskpool_wait(tp k) / taskpool_state(tp k) would read while this callback runs:
+     * it must not be TERMINATED yet, at entry and after the callback's own work (it may submit other taskpools) */
+    if(parsec_termdet_local_taskpool_state(k == 0 ? &tp0 : k == 1 ? &tp1 : &tp2) == PARSEC_TERM_TP_TERMINATED) cb_saw_terminated = 1;
     submit_for(20 + k, k);
+    if(parsec_termdet_local_taskpool_state(k == 0 ? &tp0 : k == 1 ? &tp1 : &tp2) == PARSEC_TERM_TP_TERMINATED) cb_saw_terminated = 1;
+    in_callback[k] = 0;
     return 0;
 }
 static int on_complete0(parsec_taskpool_t *tp, void *d){ (void)tp; (void)d; return complete_cb(0); }
@@ -160,6 +171,7 @@ static void check_all_done(const char *unused)
         VASSERTM(cbn[k] == 1, "wait returned: the completion callback of every submitted taskpool ran exactly once");
         VASSERTM(parsec_termdet_local_taskpool_state(TPP(k)) == PARSEC_TERM_TP_TERMINATED, "wait returned: every submitted taskpool terminated");
     }
+    for(int k = 0; k < NTP; k++) VASSERTM(!in_callback[k], "wait returned: no completion callback is still running");
     VASSERTM(ctx.active_taskpools == 0, "wait returned: active_taskpools is zero");
     VASSERTM(!(ctx.flags & PARSEC_CONTEXT_FLAG_CONTEXT_ACTIVE), "wait returned: the context can be started again");
 }
@@ -194,6 +206,7 @@ int main(void)
     int w = IN_RANGE(0, NTP - 1); VASSUME(added[w]);
     int rcw = parsec_taskpool_wait(TPP(w));
     VASSERTM(rcw >= 0, "taskpool_wait succeeded");
+    VASSERTM(!in_callback[w], "taskpool_wait(tp) returned: the completion callback of tp has returned");
     VASSERTM(executed[w] == nt[w] && cbn[w] == 1 && parsec_termdet_local_taskpool_state(TPP(w)) == PARSEC_TERM_TP_TERMINATED,
              "taskpool_wait(tp) returned: every task of tp has run, its completion callback ran once, tp terminated");
     int left_after_tpwait = pending[0] + pending[1] + pending[2];
@@ -217,6 +230,8 @@ int main(void)
     for(int k = 0; k < NTP; k++) VASSERTM(added[k], "every taskpool submitted by the end");
 #endif
     for(int k = 0; k < NTP; k++) if(cbn[k]) VASSERTM(cb_after_last[k], "completion callback ran after the last task of its taskpool");
+    VASSERTM(!cb_saw_terminated, "a taskpool is not reported TERMINATED while its completion callback is still running (a wait on it cannot return before the callback returned)");
+    VASSERTM(!cb_nested_self, "the completion callback of a taskpool is not re-entered");
     VASSERTM(!ran_after_wait, "no task runs after a wait returned");
 
     int dyn_task = 0, dyn_cb = 0, empties = 0, total = 0;
